@@ -381,10 +381,11 @@ func resyncKey(m *model.Model, db int, key string, k *keyDump, d0, d1 int64) {
 			o.Set[mm] = struct{}{}
 		}
 	}
-	if o == nil || (o.T == model.TList && len(o.L) == 0) || (o.T == model.THash && len(o.H) == 0) || (o.T == model.TSet && len(o.Set) == 0) {
+	if o == nil {
 		delete(m.DB[db], key)
 		return
 	}
+	// an empty aggregate left behind by the SUT is mirrored (it was reported when it appeared), so that it is not re-reported after every later step
 	if k.PTTL >= 0 {
 		// read at some moment in [d0, d1]
 		o.Deadline, o.DeadlineHi = d0+k.PTTL, d1+k.PTTL
